@@ -6,13 +6,19 @@ import io, itertools, json, logging, types
 from fractions import Fraction
 
 CLAIM = {
- 'text': ('Lean 4 theorems about a transcription of Type01Plan.genEvents / LogPass._genFrameSetEvents / setFrameSet / '
-          'RLEType01 / FileIndex dispatch (events_cover, setFrameSet_values_partial, setFrameSet_history_independent, '
-          'index_lists_all, implied_x_partial, implied_x_f7_witness) for unbounded channel lists, frame counts and '
-          'slices; the model is tied to the source on every run by correspondence on generated LIS files (index entries, '
-          'loaded matrix words, implied X vector, file operation trace, genEvents tuples) and the property itself is '
-          'evaluated on the implementation alone against the generator\'s ground truth. Proof + correspondence is the '
-          'right level: the property quantifies over unbounded selections x record boundaries x channel shapes.'),
+ 'text': ('Lean 4 theorems about a transcription of Type01Plan.FrameSetPlan / RLEType01 / LogPass / FrameSet / FileIndex: '
+          'events_cover + events_inside_record (for every frame plan, channel list and slice the read events of genEvents '
+          'read exactly the indirect word and the selected channels of the selected frames, in order, and read+skip stays '
+          'inside the record), rle_lookup + index_data_record (frame number -> record position and offset, every record '
+          'appended with its whole number of frames), index_lists_all (every dispatchable record listed at its position '
+          'with type, kind and table name, in file order), setFrameSet_history_independent (+ the F20 exception), '
+          'extrapolate_rule_first/later, and kernel-evaluated witnesses (setFrameSet_values_witness, implied_x_witness_step1, '
+          'implied_x_f7_witness = the negation of the implied-X clause on the current code). The end-to-end statements '
+          '(setFrameSet_values, implied X for step 1) are not proved in general; they are covered by the correspondence of '
+          'the model with the code on generated LIS files (index entries, loaded words, implied X vector, file operation '
+          'trace, genEvents tuples) and by the property oracle evaluated on the implementation alone against the '
+          'generator\'s ground truth. Proof + correspondence is the right level: the property quantifies over unbounded '
+          'selections x record boundaries x channel shapes.'),
  'note': ('Trusted: Lean kernel; hand-written model as far as compared on the run; physical record layer (C05) and '
           'numeric decoding of representation codes (C07) are used, not verified, here: channel values are compared as '
           'raw words decoded on both sides by the same RepCode.readBytes. X values are integers (float64 exact).'),
@@ -605,7 +611,7 @@ def run(ctx):
     lislog = _gen()
     rng = ctx.rng
     # ---------------- spec encoder cross-check (Lean Spec.encDfsr vs the Python generator)
-    descs = [lislog.random_logpass_desc(rng) for _ in range(ctx.n(40, 200))]
+    descs = [lislog.random_logpass_desc(rng) for _ in range(ctx.n(100, 1000))]
     lines = []
     for d in descs:
         spw = lislog.enc_int(d['spacing_rc'], d['spacing'])
@@ -626,7 +632,7 @@ def run(ctx):
     ctx.extra['exhaustive_scope'] = 'FrameSetPlan.genEvents: 5 channel-size lists, indirect size 0/4, every channel subset, start 0..3, stop 0..6, step None..3 (%d cases)' % len(pcs)
     # ---------------- files
     cases = [(F7_WITNESS, [[0, [0, 16, 2], None], [0, None, None], [0, [0, 16, 2], [1, 3]], [0, [1, 15, 3], None]])]
-    for k in range(ctx.n(260, 2500)):
+    for k in range(ctx.n(1500, 16000)):
         small = rng.random() < 0.5
         fdesc = lislog.random_file_desc(rng, max_passes=2, small=small, jitter=rng.random() < 0.2, zero_rec=0.03,
                                         max_rec=rng.choice([1, 3, 6]), max_fpr=rng.choice([1, 3, 7, 12]))
